@@ -1,3 +1,5 @@
+import CffiVerif.Generated.DlCloseSteps
+
 /-
 Model of symbol access through a `dlopen`ed library object and of `ffi.dlclose`,
 for the two ABI-mode implementations:
@@ -108,13 +110,14 @@ def closeAll (impl : Impl) (s : State) : State :=
   | .outOfLine => if s.isOpen then { s with isOpen := false, cachedF := [], cachedV := [], loaded := false } else s
   | .inline => { s with isOpen := false, cachedF := [], cachedV := [], loaded := (if s.isOpen then false else s.loaded) }
 
-/-- The same call as the sequence of its steps, in the order the code performs them; any operation
+/-- What `closeStep` (below, built from the extracted step lists) amounts to for the source as it is
+(`C37.closeStep_eq_spec`): the same call as the sequence of its steps, in the order the code performs them; any operation
 of another thread may come between two `closeStep`s (this allows more interleavings than the GIL does
 today: in `ffi_dlclose` all three steps run without a release point; in `__cffi_close__` there is one
 between `close_lib()` and `__dict__.clear()`).
 * out-of-line: (1) test + NULL the handle, (2) clear the cache, (3) `dlclose()`.
 * in-line: (1) `close_lib()`: `dlclose()` and NULL the handle atomically, (2) clear `__dict__`. -/
-def closeStep (impl : Impl) (s : State) : State × Out :=
+def closeStepSpec (impl : Impl) (s : State) : State × Out :=
   match impl, s.phase with
   | .outOfLine, .none =>
     if s.isOpen then ({ s with isOpen := false, phase := .nulled }, .closing) else (s, .done)
@@ -122,7 +125,52 @@ def closeStep (impl : Impl) (s : State) : State × Out :=
   | .outOfLine, .cleared => ({ s with loaded := false, phase := .none }, .done)
   | .inline, .none =>
     ({ s with isOpen := false, loaded := (if s.isOpen then false else s.loaded), phase := .nulled }, .closing)
-  | .inline, _ => ({ s with cachedF := [], cachedV := [], phase := .none }, .done)
+  | .inline, .nulled => ({ s with cachedF := [], cachedV := [], phase := .none }, .done)
+  | .inline, .cleared => ({ s with phase := .none }, .done)    -- no such step in-line (unreachable)
+
+open CffiVerif.Generated.DlCloseSteps in
+/-- One primitive action of a close. -/
+def applyAct (s : State) : Act → State
+  | .nullHandle => { s with isOpen := false }
+  | .clearCache => { s with cachedF := [], cachedV := [] }
+  | .sysDlclose => { s with loaded := false }
+
+open CffiVerif.Generated.DlCloseSteps in
+/-- The steps of `ffi.dlclose(lib)` between which other threads may run, each a list of actions done without
+a release point, **in the order extracted from the source** (`Generated/DlCloseSteps.lean`).
+* out-of-line: each statement of `ffi_dlclose`'s `if (libhandle != NULL)` block is its own step (more
+  interleavings than the GIL allows today);
+* in-line: the statements of `__cffi_close__`; `close_lib()` is one C call performing `inlineCloseLib`. -/
+def closeGroups : Impl → List (List Act)
+  | .outOfLine => outOfLineClose.map fun a => [a]
+  | .inline => inlinePyClose.map fun
+    | .closeLib => inlineCloseLib
+    | .clearDict => [.clearCache]
+
+def phaseIdx : Phase → Nat
+  | .none => 0
+  | .nulled => 1
+  | .cleared => 2
+
+def idxPhase : Nat → Phase
+  | 0 => .none
+  | 1 => .nulled
+  | _ => .cleared
+
+/-- The next step of the in-flight close: the `phaseIdx`-th group of `closeGroups`.  Guards as in the code:
+out-of-line, the whole call returns at once when the handle is already NULL at its start; in-line, `close_lib()`
+acts only `if (dlobj->dl_handle != NULL)` while `__dict__.clear()` is unconditional. -/
+def closeStep (impl : Impl) (s : State) : State × Out :=
+  let gs := closeGroups impl
+  let k := phaseIdx s.phase
+  match gs[k]? with
+  | none => ({ s with phase := .none }, .done)
+  | some acts =>
+    if impl = .outOfLine ∧ k = 0 ∧ s.isOpen = false then (s, .done) else
+    let guarded := impl = .inline ∧ k = 0
+    let s' := if guarded ∧ s.isOpen = false then s else acts.foldl applyAct s
+    if k + 1 = gs.length then ({ s' with phase := .none }, .done)
+    else ({ s' with phase := idxPhase (k + 1) }, .closing)
 
 def outOf : Except Err Int → (Int → State × Out) → State → State × Out
   | .ok v, k, _ => k v
